@@ -84,6 +84,10 @@ pub enum Req {
     Invoice { h: u8 },
     /// Node::sign_bolt11_invoice of an invoice the node issues itself for hash 14 + h
     IssueInvoice { h: u8 },
+    /// keysend of 30 000 sat for hash 10 + h (the hashes of `Invoice`) proposed through a stateless
+    /// approving approver (`PositiveApprover`, the PreapproveKeysend path of a permissive signer):
+    /// look-up, approval and `Node::add_keysend`
+    Keysend { h: u8 },
 }
 
 #[derive(Clone, Debug, Serialize, Deserialize)]
@@ -120,6 +124,7 @@ fn req_strat() -> impl Strategy<Value = Req> {
         5 => (ch(), n(), 0u8..2).prop_map(|(ch, n, variant)| Req::WireValidate { ch, n, variant }),
         4 => (0u8..2).prop_map(|h| Req::Invoice { h }),
         2 => (0u8..2).prop_map(|h| Req::IssueInvoice { h }),
+        4 => (0u8..2).prop_map(|h| Req::Keysend { h }),
     ]
 }
 
@@ -129,6 +134,8 @@ fn req_strat_pay() -> impl Strategy<Value = Req> {
     prop_oneof![
         10 => (ch(), any::<bool>()).prop_map(|(ch, phase1)| Req::CSignPay { ch, phase1 }),
         6 => (0u8..3).prop_map(|h| Req::ApproverKeysend { h }),
+        5 => (0u8..2).prop_map(|h| Req::Keysend { h }),
+        3 => (0u8..2).prop_map(|h| Req::Invoice { h }),
         2 => (0u8..2).prop_map(|h| Req::Approve { h }),
         2 => (ch(), 1u8..3, 0u8..2).prop_map(|(ch, n, variant)| Req::CSign { ch, n, variant }),
         1 => Just(Req::NodeBalance),
@@ -557,6 +564,14 @@ fn exec(cx: &Ctx2, r: &Req) -> String {
             use vls_protocol_signer::approver::Approve;
             let payee = PublicKey::from_secret_key(&bitcoin::secp256k1::Secp256k1::new(), &SecretKey::from_slice(&[5u8; 32]).unwrap());
             match cx.approver.handle_proposed_keysend(node, payee, phash(20 + *h), 600_000) {
+                Ok(b) => format!("ok:{}", b),
+                Err(_) => "err".into(),
+            }
+        }
+        Req::Keysend { h } => {
+            use vls_protocol_signer::approver::Approve;
+            let payee = PublicKey::from_secret_key(&bitcoin::secp256k1::Secp256k1::new(), &SecretKey::from_slice(&[5u8; 32]).unwrap());
+            match vls_protocol_signer::approver::PositiveApprover().handle_proposed_keysend(node, payee, phash(10 + *h), 30_000_000) {
                 Ok(b) => format!("ok:{}", b),
                 Err(_) => "err".into(),
             }
